@@ -205,6 +205,10 @@ func run(r *h.Run, idx int, fs []string) {
 		return
 	}
 	msgN, probeN, victimN := 0, 0, 0
+	// earlier messages of this history, re-sent verbatim now and then: a retained
+	// publish (or will) that is byte-identical to what is already retained must be
+	// treated like any other (live copy with the flag cleared, replay afterwards)
+	var sent []packet.Message
 	nsteps := 14 + rng.Intn(14)
 	for s := 0; s < nsteps; s++ {
 		r.Journal("C11 history #%d steps so far %v", idx, x.steps)
@@ -215,6 +219,13 @@ func run(r *h.Run, idx int, fs []string) {
 			if msg.Retain && rng.Intn(4) == 0 {
 				msg.Payload = nil // clears
 			}
+			if len(sent) > 0 && rng.Intn(4) == 0 {
+				msg = sent[rng.Intn(len(sent))] // verbatim repetition (topic, QoS, payload, flag)
+				if rng.Intn(3) == 0 {
+					msg.QOS = packet.QOS(rng.Intn(3))
+				}
+			}
+			sent = append(sent, msg)
 			who := []string{"pub1", "pub2"}[rng.Intn(2)]
 			x.steps = append(x.steps, fmt.Sprintf("%s:publish(%q q%d retain=%t payload=%q)", who, msg.Topic, msg.QOS, msg.Retain, msg.Payload))
 			if !x.publish(who, msg) {
@@ -259,6 +270,11 @@ func run(r *h.Run, idx int, fs []string) {
 			if will.Retain && rng.Intn(4) == 0 {
 				will.Payload = nil // a retained will with an empty payload clears the topic like any publish
 			}
+			if len(sent) > 0 && rng.Intn(4) == 0 {
+				w := sent[rng.Intn(len(sent))] // a will identical to an earlier message
+				will = &w
+			}
+			sent = append(sent, *will)
 			if !join(name, true, will) {
 				return
 			}
